@@ -1076,6 +1076,21 @@ func c14(c *Ctx) {
 				_ = bad
 			}
 		})
+		// the body is read to its end: it is consumed through ReadAll (a single Read may return before the
+		// announced length has arrived, and what is missing is series lost from the middle of a message)
+		nAll := 0
+		for _, g := range WithAnon(rb) {
+			for _, cl := range callsIn(g) {
+				if cl.Common().IsInvoke() && cl.Common().Method.Name() == "Read" && strings.HasSuffix(pathOf(cl.Common().Value), ".Body") {
+					r.Check("readBody:reads-to-the-end", false, cl.Pos(), "the request body is read with a single Read call")
+				}
+				if cal := staticCallee(cl); cal != nil && cal.Name() == "ReadAll" && len(cl.Common().Args) == 1 && strings.Contains(exprString(cl.Common().Args[0], 0), ".Body") {
+					nAll++
+					r.Check("readBody:reads-to-the-end", true, cl.Pos(), "the request body is consumed by ReadAll")
+				}
+			}
+		}
+		r.Check("readBody:read-site", nAll >= 1, rb.Pos(), fmt.Sprintf("%d ReadAll(req.Body) sites", nAll))
 		// each decompress error leads to an error return
 		for _, cl := range callsIn(rb) {
 			cal := staticCallee(cl)
